@@ -75,7 +75,8 @@ def judge(sig, what, addr, exp):
 def gen_addr(tier):
     return st.fixed_dictionaries({
         "k": st.one_of(S.scalars(), st.sampled_from(LZ_KEYS), st.sampled_from(HZ_KEYS)), "testnet": st.booleans(),
-        "form": st.sampled_from(["prv", "pub", "pub-uncompressed"]),
+        "form": st.sampled_from(["prv", "pub", "pub-uncompressed", "prv", "pub", "pub-parsed-other-network", "prv-parsed-other-network"]),
+        "nodeflag": st.sampled_from(["same", "same", "other"]),
         "order": st.permutations(KINDS + ["pk:p2pkh:c", "pk:p2pkh:u", "pk:p2wpkh:c", "pk:h160:c", "pk:h160:u"]),
         # how the caller spells its flags and type names: real bools / literals, or equal values of another kind
         # (0 / 1, strings assembled at run time)
@@ -88,12 +89,21 @@ def check_addr(case, ctx):
     k, testnet = case["k"], case["testnet"]
     pt = secp.mul_g(k)
     exp = expected(pt, testnet)
+    # the node's own network flag / the version prefix it was parsed from may differ from the wallet's network: addresses are
+    # the WALLET's business ("for every public key and either network")
+    nflag = testnet if case.get("nodeflag", "same") == "same" else (not testnet)
     if case["form"] == "prv":
-        node = Prv(key=k.to_bytes(32, "big"), chain_code=b"\x00" * 32, testnet=testnet)
+        node = Prv(key=k.to_bytes(32, "big"), chain_code=b"\x00" * 32, testnet=nflag)
     elif case["form"] == "pub-uncompressed":
-        node = Pub(key=secp.ser_u(pt), chain_code=b"\x00" * 32, testnet=testnet)   # still the same public key
+        node = Pub(key=secp.ser_u(pt), chain_code=b"\x00" * 32, testnet=nflag)   # still the same public key
+    elif case["form"] in ("pub-parsed-other-network", "prv-parsed-other-network"):
+        from vlib.ref import bip32 as RB
+        rn = RB.Node.from_priv(k, b"\x00" * 32)
+        private = case["form"].startswith("prv")
+        ver = RB.VERSION_OF[("prv" if private else "pub", not testnet, [44, 49, 84][k % 3])]
+        node = (Prv if private else Pub).parse(rn.xprv(ver) if private else rn.xpub(ver))       # flag left at its default
     else:
-        node = Pub(key=secp.ser_c(pt), chain_code=b"\x00" * 32, testnet=testnet)
+        node = Pub(key=secp.ser_c(pt), chain_code=b"\x00" * 32, testnet=nflag)
     intflags = case.get("flagform") == "int"
     fl = (lambda b: int(b)) if intflags else (lambda b: b)
     rt = (lambda s_: "".join(list(s_))) if intflags else (lambda s_: s_)     # an equal string that is not the literal object
